@@ -65,11 +65,8 @@ class C07(Prop):
             if r > 0.88:
                 if rng.random() < 0.5:
                     s = G.damage(rng, s)
-                pos = rng.randrange(len(s) + 1)
-                if rng.random() < 0.6:       # bias to token starts
-                    starts = [i for i in range(len(s) + 1) if i == 0 or i == len(s) or s[i - 1] in " \t()'\"=<>~!" or s[i] in " \t()'\"=<>~!\n"]
-                    pos = rng.choice(starts)
-                yield ("mk.match", [rng.choice(RULES), core.enc(s), str(pos)])
+                rule, pos = G.tokenizer_probe(rng, s)
+                yield ("mk.match", [rule, core.enc(s), str(pos)])
                 continue
             env = G.environment(rng, pool, tree)
             yield R.case_eval(s, env)
